@@ -70,14 +70,17 @@
 		return (_res);						\
 } while (0)
 
+/* Magnitude in unsigned: "80000000" / "-80000000" must not be signed
+ * overflow (left shift into the sign bit, negate of the type minimum). */
 #define STRH2SNUM(_str, _len, _type)	do {				\
-		_type _res = 0, _sign = 1;				\
+		uint64_t _ures = 0;					\
+		int _sign = 1;						\
 		if (NULL == (_str) || 0 == (_len))			\
 			return (0);					\
 		STRH2NUM_SIGN((_str), (_len), _sign);			\
-		STRH2NUM((_str), (_len), _type, _res);			\
-		_res *= _sign;						\
-		return (_res);						\
+		STRH2NUM((_str), (_len), uint64_t, _ures);		\
+		return ((_type)((0 > _sign) ?				\
+		    (((uint64_t)0) - _ures) : _ures));			\
 } while (0)
 
 
